@@ -19,6 +19,7 @@ import (
 	"strconv"
 	"strings"
 	"sync"
+	"syscall"
 	"testing"
 	"time"
 
@@ -329,6 +330,7 @@ func oneLine(s string) string {
 
 // Main is the TestMain body shared by all property packages.
 func Main(m *testing.M) {
+	EnableCrashFile()
 	// rapid replays testdata/rapid/*.fail first; every run must be a pure
 	// function of the code and the seed.
 	_ = os.RemoveAll("testdata/rapid")
@@ -391,6 +393,10 @@ func guard[C any](prop Prop[C], c C) (err error) {
 	}()
 	return prop(c)
 }
+
+// Guard runs prop on one case and turns a panic into an error (for sweeps that
+// do not go through Check / Enumerate).
+func Guard[C any](prop Prop[C], c C) error { return guard(prop, c) }
 
 // Check runs prop over cases drawn by gen. The number of cases and the seed come
 // from rapid's flags, which check.py sets. A failing case is shrunk by rapid and
@@ -471,9 +477,53 @@ var (
 	watchOnce  sync.Once
 )
 
+// Crash file: a process that dies from a fatal runtime error (out of memory,
+// stack overflow, concurrent map writes) cannot report the case it was running.
+// Totality checks therefore copy every case, before running it, into a small
+// shared memory mapping backed by a file in the run directory; the driver turns
+// the file of a dead worker into the replay artefact.
+var crashMap []byte
+
+// EnableCrashFile maps $VERIF_RUN_DIR/crash-<pid>.case.json (no-op when unset).
+func EnableCrashFile() {
+	dir := os.Getenv("VERIF_RUN_DIR")
+	if dir == "" {
+		return
+	}
+	f, err := os.OpenFile(filepath.Join(dir, fmt.Sprintf("crash-%d.case.json", os.Getpid())), os.O_RDWR|os.O_CREATE|os.O_TRUNC, 0o644)
+	if err != nil {
+		return
+	}
+	defer f.Close()
+	const size = 1 << 20
+	if f.Truncate(size) != nil {
+		return
+	}
+	if m, err := syscall.Mmap(int(f.Fd()), 0, size, syscall.PROT_READ|syscall.PROT_WRITE, syscall.MAP_SHARED); err == nil {
+		crashMap = m
+	}
+}
+
+func noteCrashCase(h *H, test string, c any) {
+	if crashMap == nil {
+		return
+	}
+	raw, err := json.Marshal(c)
+	if err != nil {
+		return
+	}
+	b, _ := json.Marshal(ReplayFile{Property: h.ID, Test: test, Why: "the worker process died while running this case", Case: raw})
+	if len(b)+1 > len(crashMap) {
+		return
+	}
+	n := copy(crashMap, b)
+	crashMap[n] = 0
+}
+
 // Begin marks the start of a case of a totality property.
 func (h *H) Begin(test string, c any) {
 	watchOnce.Do(func() { go watchdog() })
+	noteCrashCase(h, test, c)
 	watchMu.Lock()
 	watchStart, watchCase, watchH, watchTest = time.Now(), c, h, test
 	watchMu.Unlock()
@@ -481,6 +531,9 @@ func (h *H) Begin(test string, c any) {
 
 // End marks the end of the case.
 func (h *H) End() {
+	if crashMap != nil {
+		crashMap[0] = 0
+	}
 	watchMu.Lock()
 	watchCase, watchH = nil, nil
 	watchMu.Unlock()
